@@ -70,7 +70,7 @@ type c19Case struct {
 func TestC19NodeURI(t *testing.T) {
 	rec := vt.For("C19")
 	rec.Rule("generated (connection source address x node-URI override x endpoint connect/host); oracle: accepted => stored URI parses with ethnode.ParseNodeURI to the authenticated id and a host:port equal to override-or-source host and override-or-30303 port, foreign ids never stored, undeterminable host refused, well-formed class accepted; non-trivial = IPv6 source/override, a missing component, or a foreign id; distinct by (classes, endpoint, outcome)")
-	rapid.Check(t, func(rt *rapid.T) {
+	check(t, func(rt *rapid.T) {
 		self := nodeIdent(0)
 		other := nodeIdent(1)
 		client := nodeIdent(2)
@@ -338,7 +338,7 @@ func genC19Override(rt *rapid.T, self, other ident, srcAddr, srcPlain string) c1
 func TestC19Reregistration(t *testing.T) {
 	rec := vt.For("C19")
 	rec.Rule("registration histories: 2-5 registrations of two host identities over the same or a new connection (new source address), each with or without a node-URI override, through vipnode_connect or vipnode_host, sometimes first as a client, on the memory and the on-disk badger driver; oracle after every step: the stored URI of the registering identity is decided by THIS registration alone (its own id, override-or-source host, override-or-30303 port), a refused registration leaves the stored record as it was, the other identity's record is untouched; at the end a client's vipnode_peer hands out each host under its own id and latest address; non-trivial = an identity registers twice with different resulting addresses, or two identities share a connection; distinct by driver + step classes")
-	rapid.Check(t, func(rt *rapid.T) {
+	check(t, func(rt *rapid.T) {
 		ids := []ident{nodeIdent(0), nodeIdent(1)}
 		client := nodeIdent(2)
 		driver := rapid.SampledFrom([]string{"memory", "memory", "badger"}).Draw(rt, "driver")
